@@ -161,6 +161,9 @@ def work(shard, tier):
         # options on a sample of inputs
         if len(optsets) > 1:
             sub = [i for i in inputs if i[0] == 'plain'] + rng.sample(inputs, min(len(inputs), 60 if tier == 'quick' else 600))
+            # the registry branches, payload sweep and extreme fields under every option value as well (few modules have options)
+            special = [i for i in inputs if i[0] in ('registry-probe', 'payload-sweep', 'extreme-field', 'date-forced')]
+            sub += special if len(special) <= 6000 else rng.sample(special, 6000)
             for opts in optsets[1:]:
                 if not set(opts) <= iv_params:
                     # is_valid lacks the option: the property speaks of "the same options";
